@@ -66,6 +66,7 @@ Compiler stages
 from __future__ import annotations
 
 import logging
+import re
 import typing
 from time import time
 
@@ -105,6 +106,9 @@ def compile_ufl_objects(
     """
     _object_names = object_names if object_names is not None else {}
     _namespace = namespace if namespace is not None else ""
+    if re.fullmatch("[A-Za-z0-9_]*", _namespace) is None:
+        # The namespace is part of every generated identifier
+        raise ValueError(f"Namespace '{_namespace}' contains characters that are not valid in C names.")
 
     # Stage 1: analysis
     cpu_time = time()
